@@ -506,7 +506,14 @@ fn run(args: &[String]) {
     let jobs = arg_u64(args, "--jobs", 8) as usize;
     let mem = arg_u64(args, "--mem-mb", 4096);
     let max_hangs = arg_u64(args, "--max-hangs", 24) as usize;
-    let exe = std::env::current_exe().unwrap().to_string_lossy().to_string();
+    // the workers run from a private copy of this binary next to the output file: the build directory (a shadow crate
+    // under .work/ when VERIF_REPO is set) is shared with other runs and may be cleaned away under us
+    let me = std::env::current_exe().unwrap();
+    let copy = std::path::Path::new(&arg(args, "--out").unwrap()).with_file_name(format!("c04-worker-{}", std::process::id()));
+    let exe = match std::fs::copy(&me, &copy) {
+        Ok(_) => copy.to_string_lossy().to_string(),
+        Err(_) => me.to_string_lossy().to_string(),
+    };
     // batches of cases with the same time limit
     let mut order: Vec<usize> = (0..recs.len()).filter(|&i| !recs[i]["skip"].as_bool().unwrap_or(false)).collect();
     order.sort_by_key(|&i| (recs[i]["tmo_ms"].as_u64().unwrap_or(3000), i));
@@ -585,6 +592,7 @@ fn run(args: &[String]) {
             });
         }
     });
+    let _ = std::fs::remove_file(&copy);
     if let Some(f) = fatal.lock().unwrap().as_ref() {
         eprintln!("harness error: {f}");
         std::process::exit(3);
